@@ -7,8 +7,10 @@ pub mod c02;
 pub mod c03;
 pub mod c04;
 pub mod c05;
+pub mod c07;
 pub mod c08;
 pub mod c12;
+pub mod c17;
 pub mod c20;
 
 pub struct Prepared {
@@ -73,7 +75,7 @@ pub struct PropDef {
 }
 
 pub fn all() -> Vec<PropDef> {
-    vec![c02::def(), c03::def(), c04::def(), c05::def(), c08::def(), c12::def(), c20::def()]
+    vec![c02::def(), c03::def(), c04::def(), c05::def(), c07::def(), c08::def(), c12::def(), c17::def(), c20::def()]
 }
 
 pub fn get(id: &str) -> Option<PropDef> {
